@@ -372,7 +372,7 @@ func conjMatches(spec, got string) bool {
 		re := regexp.MustCompile(sp)
 		hit := false
 		for i, g := range gl {
-			if !used[i] && re.MatchString(g) {
+			if !used[i] && matchEither(re, g) {
 				used[i] = true
 				hit = true
 				break
@@ -441,10 +441,10 @@ func HeldEdges(fn *ssa.Function, re string) []Edge {
 		if iff == nil {
 			continue
 		}
-		if rx.MatchString(normCond(iff.Cond, true)) {
+		if matchEither(rx, normCond(iff.Cond, true)) {
 			out = append(out, Edge{b, 0})
 		}
-		if rx.MatchString(normCond(iff.Cond, false)) {
+		if matchEither(rx, normCond(iff.Cond, false)) {
 			out = append(out, Edge{b, 1})
 		}
 	}
@@ -490,4 +490,87 @@ func CallsOfParam(fn *ssa.Function, name, param string) Ev {
 		}
 	}
 	return ev
+}
+
+// inCycle reports whether block b lies on a CFG cycle.
+func inCycle(b *ssa.BasicBlock) bool {
+	seen := map[*ssa.BasicBlock]bool{}
+	var stack []*ssa.BasicBlock
+	stack = append(stack, b.Succs...)
+	for len(stack) > 0 {
+		x := stack[len(stack)-1]
+		stack = stack[:len(stack)-1]
+		if x == b {
+			return true
+		}
+		if seen[x] {
+			continue
+		}
+		seen[x] = true
+		stack = append(stack, x.Succs...)
+	}
+	return false
+}
+
+// HeldEdgesAcyclic is HeldEdges restricted to branches that are not inside a
+// loop (evaluated at most once per call), so that "passes this edge" means
+// "the condition held at its only evaluation".
+func HeldEdgesAcyclic(fn *ssa.Function, re string) []Edge {
+	var out []Edge
+	for _, e := range HeldEdges(fn, re) {
+		if !inCycle(e.From) {
+			out = append(out, e)
+		}
+	}
+	return out
+}
+
+// IfsMatching returns the If instructions whose condition (either polarity) matches re.
+func IfsMatching(fn *ssa.Function, name, re string) Ev {
+	rx := regexp.MustCompile(re)
+	ev := Ev{Name: name, Fn: fn}
+	for _, b := range fn.Blocks {
+		iff := lastIf(b)
+		if iff == nil {
+			continue
+		}
+		if matchEither(rx, normCond(iff.Cond, true)) || matchEither(rx, normCond(iff.Cond, false)) {
+			ev.Ins = append(ev.Ins, iff)
+		}
+	}
+	return ev
+}
+
+// mirrorLit returns the literal with its top-level comparison mirrored
+// ("a < b" -> "b > a"); "" if l is not a comparison.
+func mirrorLit(l string) string {
+	depth := 0
+	for i := 0; i < len(l); i++ {
+		switch l[i] {
+		case '(', '[', '{':
+			depth++
+		case ')', ']', '}':
+			depth--
+		case ' ':
+			if depth != 0 {
+				continue
+			}
+			for _, op := range []struct{ a, b string }{{" == ", " == "}, {" != ", " != "}, {" <= ", " >= "}, {" >= ", " <= "}, {" < ", " > "}, {" > ", " < "}} {
+				if strings.HasPrefix(l[i:], op.a) {
+					return l[i+len(op.a):] + op.b + l[:i]
+				}
+			}
+		}
+	}
+	return ""
+}
+
+func matchEither(rx *regexp.Regexp, lit string) bool {
+	if rx.MatchString(lit) {
+		return true
+	}
+	if m := mirrorLit(lit); m != "" && rx.MatchString(m) {
+		return true
+	}
+	return false
 }
